@@ -4,7 +4,7 @@ from __future__ import annotations
 
 from ..model import AnalysisError
 from ..rules import batching, bind
-from ..rules.match import m_arrcall, m_binop
+from ..rules.match import m_arrcall, m_binop, m_method
 from ..rules.siblings import swap_map
 from ..rules.trialsib import HD, WD, Sib, key, nelec, restricted_default
 from ..symex import (Evaluator, array_fn, call_parts, const, func_name, getitem, is_const, show,
@@ -38,6 +38,7 @@ def run(ctx):
     restricted_default(ctx, "force_bias")
     s = Sib(ctx)
     s.auto_helper_mirrors(["_overlap_with_rot_sd"])
+    s.force_bias_is_coulomb_trace()
     s.rhf_restricted_vs_unrestricted("force_bias")
     s.cisd_overlap_ratio()
     s.ucisd_overlap_ratio()
@@ -149,6 +150,45 @@ def cotangent(ctx):
             z_ok = rest_zero and "chol" in shp_s and "shape[0]" in shp_s
         ctx.ob("BIND-2", f"wave_function_auto.{meth}: derivative taken at zero field, one coefficient per Cholesky vector",
                z_ok, f"x_gamma primal = {show(x0, maxdepth=3)[:80]}", fi)
+        # reverse mode through a complex-valued overlap: a real primal makes jax project the cotangent on the real
+        # axis (Re dO/dx instead of the holomorphic derivative), silently
+        def dtype_class(t):
+            """'complex' / 'real' / None (unknown) for the array a primal expression builds"""
+            t = strip_wrappers(t)
+            sm = m_binop(t, "+")
+            if sm is not None:
+                ks = [dtype_class(a) for a in sm]
+                return "complex" if "complex" in ks else ("real" if all(k == "real" for k in ks) else None)
+            if t.op == "const":
+                return "complex" if isinstance(t.args[0], complex) else "real"
+            if t.op == "call" and array_fn(t) in ("zeros", "ones", "zeros_like", "ones_like", "full", "empty"):
+                _, pos_, kws_ = call_parts(t)
+                dt = kws_.get("dtype")
+                if dt is None:
+                    if array_fn(t).endswith("_like") and pos_:
+                        root = [y for y in subterms(pos_[0]) if y.op == "sym"]
+                        return "real" if root and all(y.args[0] == "ham_data" for y in root) else None
+                    return "real"
+                dts = show(dt, maxdepth=4)
+                if "complex" in dts:
+                    return "complex"
+                if "float" in dts or "int" in dts:
+                    return "real"
+                if dt.op == "attr" and dt.args[1] == "dtype":
+                    root = [y for y in subterms(dt.args[0]) if y.op == "sym"]
+                    if root and all(y.args[0] == "ham_data" for y in root):
+                        return "real"      # the Hamiltonian arrays are real (FCIDUMP_chol is written real)
+                    if root and all(y.args[0].startswith("walker") for y in root):
+                        return "complex"   # as complex as the walker the overlap is a function of
+                return None
+            mm = m_method(t, "astype")
+            if mm is not None and mm[1]:
+                return "complex" if "complex" in show(mm[1][0], maxdepth=3) else None
+            return None
+
+        dc = dtype_class(x0)
+        ctx.ob("BIND-2", f"wave_function_auto.{meth}: the differentiated field coefficients are a complex primal",
+               dc != "real", f"primal {show(x0, maxdepth=3)[:70]} is {dc or 'of unknown dtype (not provably real)'}", fi)
         # the remaining primals are the walker(s), chol, wave_data in the helper's order
         rest_ok = True
         for k, (prm, a) in enumerate(zip(hparams, primals)):
